@@ -17,7 +17,11 @@ ASSUMPTIONS = [
     "reference rules W1-W5 (vf/ref.py) follow docs/resource.md and docs/resource_assignment.md; a zero-length busy instant strictly inside another busy interval is left unspecified",
 ]
 PROFILES = [
+    # resource constraints declared between two assignments of their worker (declaration-order dependent state)
+    S.profile(min_tasks=2, max_tasks=4, p_resources=100, task_constraints=(0, 0), optional_rules=(0, 0), resource_constraints=(1, 2),
+              focus=["ResourceUnavailable", "WorkLoad", "ResourcePeriodicallyUnavailable"], exclude=("ResourceNonDelay", "ResourceTasksDistance", "SameWorkers", "DistinctWorkers", "ResourceInterrupted", "ResourcePeriodicallyInterrupted"),
+              horizon=(3, 6), p_interleave=70, p_optional=15, p_cumulative=40),
     S.profile(min_tasks=2, p_resources=100, task_constraints=(0, 1), optional_rules=(0, 0), resource_constraints=(0, 0), horizon=(2, 6), p_work_amount=40, p_dynamic=25, p_delay=25, p_cumulative_in_select=12),
     S.profile(min_tasks=2, p_resources=100, task_constraints=(0, 2), optional_rules=(0, 1), resource_constraints=(0, 1), buffers=(0, 1), p_work_amount=30),
 ]
-prop, run_shard, replay = _sound.make(ID, FAMILIES, "C02.soundness", PROFILES, 110, 1200)
+prop, run_shard, replay = _sound.make(ID, FAMILIES, "C02.soundness", PROFILES, 80, 900)
